@@ -352,6 +352,26 @@ def run_probe(pr, acc):
     from cv.props.c03 import _probe_model
 
     model = _probe_model()
+    if pr["name"] == "detached-reaction-rescaled-in-context":
+        # minimal form of what the thorough tier met (seed 4): the reaction gets a new metabolite, is removed together
+        # with the orphan, is rescaled while outside the model, and comes back through the exit
+        import cobra
+
+        exc = None
+        try:
+            with model:
+                r = model.reactions.R
+                r.add_metabolites({cobra.Metabolite("fresh_c", compartment="c"): 1.5})
+                model.remove_reactions([r], remove_orphans=True)
+                r *= -1
+        except Exception as e:
+            exc = e
+        acc.ev()
+        acc.count("probes_run")
+        xe = observe.xref_errors(model)
+        if xe:
+            acc.violation("C02/xref/after-leaving-a-block-in-which-a-detached-reaction-was-rescaled", f"after ctx.exit: {xe[0]}", {"probe": pr["name"], "xref": xe[:6], "raised": hist.describe_exc(exc) if exc else None})
+        return
     model.solver = "glpk_exact"
     model = pickle.loads(pickle.dumps(model))
     exc = None
